@@ -1,8 +1,11 @@
 //! rfverif: correspondence (real rustfmt code vs the Lean model) and failing-input search.
 //! usage: rfverif <property> --tier quick|thorough --seed N --out DIR
 #![feature(rustc_private)]
+extern crate rustc_lexer;
 mod c12;
 mod corpus;
+mod gen;
+mod sweep;
 mod pool;
 mod util;
 
@@ -30,6 +33,7 @@ fn main() {
     let code = match prop.as_str() {
         "c12" => c12::run(&tier, seed, &out),
         "probe" => probe(&out),
+        "sweep" => sweep::run(&args.get(2).cloned().unwrap_or_default(), seed, std::env::var("LIMIT").ok().and_then(|s| s.parse().ok()).unwrap_or(0), std::env::var("TIMEOUT_S").ok().and_then(|s| s.parse().ok()).unwrap_or(20)),
         _ => { eprintln!("unknown property {}", prop); 2 }
     };
     std::process::exit(code);
